@@ -216,7 +216,15 @@ theorem inv_apply (s : St) (a : Act) (h : Inv s) : Inv (apply s a) := by
     | lock =>
       simp only
       by_cases hs : s.m.slock = true
-      · rw [if_pos hs]; exact h
+      · rw [if_pos hs]; exact ⟨h.h1, h.h2, fun ha => by simp [active] at ha⟩
+      · rw [if_neg hs]
+        have hf : s.m.slock = false := by simpa using hs
+        have hno : ∀ u, ¬ holds (s.m.thr u) := fun u hu => by have := h.h1 u hu; rw [hf] at this; cases this
+        exact ⟨fun _ _ => rfl, fun a _ ha _ => absurd ha (hno a), fun _ => ⟨rfl, hno⟩⟩
+    | spin =>
+      simp only
+      by_cases hs : s.m.slock = true
+      · rw [if_pos hs]; exact ⟨h.h1, h.h2, fun ha => by simp [active] at ha⟩
       · rw [if_neg hs]
         have hf : s.m.slock = false := by simpa using hs
         have hno : ∀ u, ¬ holds (s.m.thr u) := fun u hu => by have := h.h1 u hu; rw [hf] at this; cases this
@@ -241,8 +249,8 @@ theorem inv_run (s : St) (as : List Act) (h : Inv s) : Inv (run s as) := by
   | cons a as ih => exact ih _ (inv_apply s a h)
 
 theorem inv_init (mx : Nat) : Inv (init mx) :=
-  ⟨fun t ht => by simp [init, Multi.init, holds] at ht, fun t _ ht _ => by simp [init, Multi.init, holds] at ht,
-   fun ha => by simp [init, active] at ha⟩
+  ⟨fun t ht => by simp [init, mk, Multi.init, holds] at ht, fun t _ ht _ => by simp [init, mk, Multi.init, holds] at ht,
+   fun ha => by simp [init, mk, active] at ha⟩
 
 /-! ## while the walker holds the lock, the list does not change -/
 
@@ -361,6 +369,7 @@ theorem apply_phi (s : St) (a : Act) (h : Inv s) (ha : active s.w) :
     | idle => rw [hw] at ha; exact absurd ha (by simp [active])
     | done => rw [hw] at ha; exact absurd ha (by simp [active])
     | lock => rw [hw] at ha; exact absurd ha (by simp [active])
+    | spin => rw [hw] at ha; exact absurd ha (by simp [active])
     | read i =>
       simp only [apply, hw]
       by_cases hc : i ≥ s.m.MAX ∨ s.m.used.getD i s.m.MAX = s.m.MAX
@@ -414,45 +423,72 @@ theorem walk_locked (as : List Act) : ∀ (s : St), Inv s → active s.w → (ru
       rw [htodo, List.append_nil] at hp
       exact ⟨by rw [q1, hp], by rw [q2, hs]⟩
 
-/-- before the walker has the lock it has told nobody anything; `seen` is whatever it was -/
-theorem walk_all (as : List Act) : ∀ (s : St), Inv s → (s.w = .idle ∨ s.w = .lock) → (run s as).w = .done →
+/-- the walker has not got the lock yet -/
+def waiting : WLoc → Prop
+  | .idle => True
+  | .lock => True
+  | .spin => True
+  | _ => False
+
+/-- before the walker has the lock it has told nobody anything; `seen` is the list at the instant it takes the lock -/
+theorem walk_all (as : List Act) : ∀ (s : St), Inv s → waiting s.w → (run s as).w = .done →
     ∃ used, (run s as).seen = used ∧ (run s as).cancelled = s.cancelled ++ walkFrom used (run s as).m.MAX 0 := by
   induction as with
-  | nil => intro s _ hw hd; simp only [run, List.foldl_nil] at hd; rcases hw with hw | hw <;> rw [hw] at hd <;> cases hd
+  | nil =>
+    intro s _ hw hd; simp only [run, List.foldl_nil] at hd; rw [hd] at hw; exact absurd hw (by simp [waiting])
   | cons a as ih =>
     intro s h hw hd
     have hrun : run s (a :: as) = run (apply s a) as := rfl
     rw [hrun] at hd ⊢
     have hi := inv_apply s a h
-    -- either the walker is still in front of the lock, or this very step took it
-    by_cases hstill : ((apply s a).w = .idle ∨ (apply s a).w = .lock) ∧ (apply s a).cancelled = s.cancelled
-    · obtain ⟨u, e1, e2⟩ := ih (apply s a) hi hstill.1 hd
-      exact ⟨u, e1, by rw [e2, hstill.2]⟩
-    · -- the step took the lock: `a = wstep`, `s.w = lock`, the flag was free
-      have htook : a = .wstep ∧ s.w = .lock ∧ s.m.slock = false := by
-        cases a with
-        | multi b => exact absurd ⟨hw, rfl⟩ hstill
-        | cancelAll =>
-          exfalso; apply hstill
-          simp only [apply]
-          rcases hw with hw | hw
-          · rw [if_pos hw]; exact ⟨by tr, by tr⟩
-          · rw [if_neg (by rw [hw]; simp)]; exact ⟨Or.inr hw, by tr⟩
-        | wstep =>
-          rcases hw with hw | hw
-          · exfalso; apply hstill; simp only [apply, hw]; exact ⟨by tr, by tr⟩
-          · by_cases hs : s.m.slock = true
-            · exfalso; apply hstill; simp only [apply, hw, if_pos hs]; exact ⟨by tr, by tr⟩
-            · exact ⟨rfl, hw, by simpa using hs⟩
-      obtain ⟨ea, hwl, hf⟩ := htook
+    -- the step that takes the lock
+    have took : s.m.slock = false → (s.w = .lock ∨ s.w = .spin) → a = .wstep →
+        ∃ used, (run (apply s a) as).seen = used ∧
+          (run (apply s a) as).cancelled = s.cancelled ++ walkFrom used (run (apply s a) as).m.MAX 0 := by
+      intro hf hwl ea
       subst ea
       have hs' : apply s .wstep = { s with m := { s.m with slock := true }, w := .read 0, seen := s.m.used } := by
-        simp only [apply, hwl, hf]; rfl
+        rcases hwl with hwl | hwl <;> simp only [apply, hwl, hf] <;> rfl
       have hact : active (apply s .wstep).w := by rw [hs']; trivial
       obtain ⟨r1, r2⟩ := walk_locked as (apply s .wstep) hi hact hd
       refine ⟨s.m.used, by rw [r2, hs'], ?_⟩
       rw [r1, run_MAX, apply_MAX, hs']
       simp [todo]
+    cases a with
+    | multi b =>
+      obtain ⟨u, e1, e2⟩ := ih (apply s (.multi b)) hi hw hd
+      exact ⟨u, e1, e2⟩
+    | cancelAll =>
+      have hw' : waiting (apply s .cancelAll).w ∧ (apply s .cancelAll).cancelled = s.cancelled := by
+        simp only [apply]; split
+        · exact ⟨trivial, rfl⟩
+        · exact ⟨hw, rfl⟩
+      obtain ⟨u, e1, e2⟩ := ih _ hi hw'.1 hd
+      exact ⟨u, e1, by rw [e2, hw'.2]⟩
+    | wstep =>
+      cases hwl : s.w with
+      | idle =>
+        have e : apply s .wstep = s := by simp only [apply, hwl]
+        rw [e] at hd hi ⊢
+        exact ih s h hw hd
+      | lock =>
+        by_cases hs : s.m.slock = true
+        · have e : apply s .wstep = { s with w := .spin } := by simp only [apply, hwl, if_pos hs]
+          rw [e] at hd hi ⊢
+          obtain ⟨u, e1, e2⟩ := ih _ hi trivial hd
+          exact ⟨u, e1, e2⟩
+        · exact took (by simpa using hs) (Or.inl hwl) rfl
+      | spin =>
+        by_cases hs : s.m.slock = true
+        · have e : apply s .wstep = { s with w := .spin } := by simp only [apply, hwl, if_pos hs]
+          rw [e] at hd hi ⊢
+          obtain ⟨u, e1, e2⟩ := ih _ hi trivial hd
+          exact ⟨u, e1, e2⟩
+        · exact took (by simpa using hs) (Or.inr hwl) rfl
+      | read i => rw [hwl] at hw; exact absurd hw (by simp [waiting])
+      | cancel i id => rw [hwl] at hw; exact absurd hw (by simp [waiting])
+      | unlock => rw [hwl] at hw; exact absurd hw (by simp [waiting])
+      | done => rw [hwl] at hw; exact absurd hw (by simp [waiting])
 
 /-- **C07, `cancel_all_streams()` as repaired, every interleaving.**  From any state in which the lock discipline holds and the
     walker has not started, for every sequence of actions of the walker and of any number of threads that create and remove
@@ -460,7 +496,7 @@ theorem walk_all (as : List Act) : ∀ (s : St), Inv s → (s.w = .idle ∨ s.w 
     up to the sentinel — at the instant the walker took the lock (`seen`), each once, in list order. -/
 theorem c07_cancel_all_locked (s : St) (h : Inv s) (hw : s.w = .idle) (as : List Act) (hd : (run s as).w = .done) :
     (run s as).cancelled = s.cancelled ++ walkFrom (run s as).seen s.m.MAX 0 := by
-  obtain ⟨u, e1, e2⟩ := walk_all as s h (Or.inl hw) hd
+  obtain ⟨u, e1, e2⟩ := walk_all as s h (by rw [hw]; trivial) hd
   have hmax : (run s as).m.MAX = s.m.MAX := run_MAX as s
   rw [e2, e1, hmax]
 
